@@ -7,7 +7,7 @@ T = '''
 //@ret r
 //@attr #[verifier::exec_allows_no_decreases_clause]
 //@sig "mut buffer: impl BufMut" => "buffer: &mut impl BufMut"
-//@sub "let mut remaining = max_items;" => "let mut remaining = max_items; let ghost mut popped: Seq<Entry<T>> = Seq::empty(); let ghost mut took: Seq<bool> = Seq::empty(); let ghost w0 = buffer.written(); let ghost rem0 = buffer.rem() as int;"
+//@sub "let mut remaining = max_items;" => "let mut remaining = max_items; let ghost mut popped: Seq<Entry<T>> = Seq::empty(); let ghost mut took: Seq<bool> = Seq::empty(); let ghost w0 = buffer.written(); let ghost rem0 = buffer.rem() as int; let ghost cap_0 = buffer.cap();"
 //@before "return 0;"
             proof {
                 assert(self.bag() =~= Multiset::<Entry<T>>::empty());
@@ -25,6 +25,7 @@ T = '''
                     assert(OrdSpec::cmp_spec(&y, &node0) == entry_cmp(y, node0));
                 }
                 assert forall|i: int| 0 <= i < popped.len() implies entry_cmp(node0, #[trigger] popped[i]) != Ordering::Greater by { }
+                assert(undec(dec(node0)) == node0);
             }
 //@before "if node.remaining_tx > 0 {"
             proof {
@@ -34,6 +35,7 @@ T = '''
 //@loop 1
             invariant
                 old(self).wf(),PREBOUND
+                buffer.cap() == cap_0,
                 popped.len() == took.len(),
                 heap_view(&old(self).flip) == heap_view(&self.flip).add(seq_bag(popped)), // [C15.fill]
                 heap_view(&self.flop) == requeue(popped, took), // [C15.fill]
@@ -44,6 +46,7 @@ T = '''
                 forall|i: int, j: int| 0 <= i < j < popped.len() ==> entry_cmp(#[trigger] popped[j], #[trigger] popped[i]) != Ordering::Greater, // [C15.fill] precedence
                 forall|y: Entry<T>, i: int| heap_view(&self.flip).count(y) > 0 && 0 <= i < popped.len() ==> #[trigger] entry_cmp(y, popped[i]) != Ordering::Greater, // [C15.fill] precedence
                 forall|e: Entry<T>| requeue(popped, took).count(e) > 0 ==> e.remaining_tx > 0,
+                forall|e: Entry<T>| #[trigger] requeue(popped, took).count(e) > 0 ==> old(self).bag().count(e) > 0 || old(self).bag().count(undec(e)) > 0,
             ensures
                 heap_view(&self.flip).len() == 0 || buffer.rem() == 0 || remaining == 0, // [C15.fill] no omission
 //@before "self.flip.append(&mut self.flop);"
@@ -57,6 +60,13 @@ T = '''
                     assert(old(self).bag().count(e) > 0);
                 }
             }
+            assert forall|lo: int, hi: int| old(self).data_bounded(lo, hi) implies self.data_bounded(lo, hi) by {
+                assert forall|e: Entry<T>| self.bag().count(e) > 0 implies lo <= e.data@.len() <= hi by {
+                    assert(self.bag().count(e) == flip_exit.count(e) + requeue(popped, took).count(e));
+                    if requeue(popped, took).count(e) == 0 { assert(old(self).bag().count(e) >= flip_exit.count(e)); }
+                    else if old(self).bag().count(e) == 0 { assert(old(self).bag().count(undec(e)) > 0); assert(undec(e).data == e.data); }
+                }
+            }
             assert(fill_effect(old(self).bag(), self.bag(), w0, buffer.written(), rem0, buffer.rem() as int, max_items as int, num_taken as int, PREFIX, popped, took, heap_view(&self.flip).sub(requeue(popped, took)))); // [C15.fill] [C07.fill]
         }
 //@spec
@@ -64,6 +74,8 @@ T = '''
             old(self).wf(), // [C15.fill]PREBOUNDOLD
         ensures
             final(self).wf(), // [C15.fill]
+            (*final(buffer)).cap() == (*old(buffer)).cap(),
+            forall|lo: int, hi: int| old(self).data_bounded(lo, hi) ==> final(self).data_bounded(lo, hi),
             exists|popped: Seq<Entry<T>>, took: Seq<bool>, rest: Multiset<Entry<T>>| #![auto]
                 fill_effect(old(self).bag(), final(self).bag(), (*old(buffer)).written(), (*final(buffer)).written(),
                             (*old(buffer)).rem() as int, (*final(buffer)).rem() as int, max_items as int, r as int, PREFIX, popped, took, rest), // [C15.fill] [C07.fill] [C16.prefix]
